@@ -26,9 +26,10 @@ Open Scope Z_scope.
 Record fixes := { fx1 : bool; fx2 : bool; fx3 : bool; fx4 : bool; fx5 : bool }.
 Definition fx_none := {| fx1 := false; fx2 := false; fx3 := false; fx4 := false; fx5 := false |}.
 Definition fx_all := {| fx1 := true; fx2 := true; fx3 := true; fx4 := true; fx5 := true |}.
-(** /repo at b37641c: C10-F1/F2/F3 repaired (637ae67, c971513, e0dc5e2); C10-F4 (RFC 7234
-    current age / invalid Expires ignored) and C10-F5 (cache keys of the three
-    authenticators and of client credentials do not contain the ttl) are open *)
+(** /repo at b37641c, before a3cbbb3 / 8647e06: C10-F1/F2/F3 repaired (637ae67, c971513,
+    e0dc5e2), C10-F4 (RFC 7234 current age / invalid Expires ignored) and C10-F5 (cache
+    keys of the three authenticators and of client credentials without the ttl) not
+    yet; /repo now is [fx_all] *)
 Definition fx_repo := {| fx1 := true; fx2 := true; fx3 := true; fx4 := false; fx5 := false |}.
 
 Inductive mech := MIntro | MJwtKey | MGeneric | MClientCred | MJwtFin | MRemote | MCtx.
